@@ -827,7 +827,7 @@ def _d_get(it, recv, args, kwargs, node):
         cands = [v for k, v in recv.items() if ops.truth_of(ops.compare(it, "Eq", key, k, node)) is not False]
         return join_values(cands + [default])
     try:
-        return recv.get(key, default)
+        return ops.materialise(it, recv.get(key, default), node)
     except TypeError:
         it.may_raise("TypeError", node, "unhashable key", certain=True)
 
